@@ -235,6 +235,16 @@ fn cmd_gen(args: &[String]) {
     let input = std::io::BufReader::new(std::fs::File::open(cases_path).expect("cases file"));
     let mut out = BufWriter::new(std::fs::File::create(trace_path).expect("trace file"));
     std::panic::set_hook(Box::new(|_| {}));
+    // what `WriteOptions::default()` and `ValidationOptions::default()` stand for (Generator.tla DefaultOptions)
+    {
+        let d = wgsl_to_wgpu::WriteOptions::default();
+        let v = wgsl_to_wgpu::ValidationOptions::default();
+        writeln!(out, "{}", json!({"ev": "defaults", "opts": {
+            "bmv": d.derive_bytemuck_vertex, "bmh": d.derive_bytemuck_host_shareable, "enc": d.derive_encase_host_shareable, "serde": d.derive_serde,
+            "mv": match d.matrix_vector_types { wgsl_to_wgpu::MatrixVectorTypes::Rust => "rust", wgsl_to_wgpu::MatrixVectorTypes::Glam => "glam", wgsl_to_wgpu::MatrixVectorTypes::Nalgebra => "nalgebra" },
+            "rustfmt": d.rustfmt, "validate": if d.validate.is_some() { "some" } else { "none" }},
+            "validation_default_all": v.capabilities == wgsl_to_wgpu::WgslCapabilities::all()})).unwrap();
+    }
     let mut n = 0u64;
     for line in input.lines() {
         let line = line.unwrap();
